@@ -7,10 +7,14 @@ import (
 	"errors"
 	"flag"
 	"fmt"
+	"io"
 	"math/big"
 	"math/rand"
+	"net"
+	"net/http"
 	"net/url"
 	"os"
+	"strings"
 	"time"
 
 	"github.com/nuetzliches/hookaido/internal/dispatcher"
@@ -114,6 +118,62 @@ func cmdDispatch(args []string) error {
 					dispatcher.TargetConfig{URL: "http://t", Retry: dispatcher.RetryConfig{Max: mx, Base: time.Second, Cap: time.Minute}})
 				emit(map[string]interface{}{"k": "classify", "res": c.Res, "n": c.N, "sub": c.sub, "attempt": attempt, "max": mx, "got": actStr(a)})
 			}
+		}
+	}
+
+	// (1b) the same table entry reached through the real HTTP deliverer when the target's answer is cut short: status line
+	// and headers arrive, the announced body does not (connection closed early, or broken chunking). The status is what the
+	// target answered; it decides.
+	for _, code := range []int{200, 201, 204, 301, 400, 404, 408, 429, 500, 503} {
+		for _, mode := range []string{"short-content-length", "broken-chunk"} {
+			if code == 204 && mode == "short-content-length" {
+				continue // a 204 has no body to cut
+			}
+			ln, err := net.Listen("tcp", "127.0.0.1:0")
+			if err != nil {
+				return err
+			}
+			go func() {
+				for {
+					c, err := ln.Accept()
+					if err != nil {
+						return
+					}
+					go func(c net.Conn) {
+						defer c.Close()
+						br := bufio.NewReader(c)
+						// read the request head and body (Content-Length is small)
+						cl := 0
+						for {
+							line, err := br.ReadString('\n')
+							if err != nil {
+								return
+							}
+							if strings.HasPrefix(strings.ToLower(line), "content-length:") {
+								fmt.Sscan(strings.TrimSpace(line[15:]), &cl)
+							}
+							if line == "\r\n" {
+								break
+							}
+						}
+						io.CopyN(io.Discard, br, int64(cl))
+						if mode == "short-content-length" {
+							fmt.Fprintf(c, "HTTP/1.1 %d X\r\nContent-Length: 64\r\nConnection: close\r\n\r\n1234567", code)
+						} else {
+							fmt.Fprintf(c, "HTTP/1.1 %d X\r\nTransfer-Encoding: chunked\r\nConnection: close\r\n\r\n7\r\n1234567\r\nzz\r\n", code)
+						}
+					}(c)
+				}
+			}()
+			hd := dispatcher.NewHTTPDeliverer(&http.Client{Timeout: 5 * time.Second, Transport: &http.Transport{DisableKeepAlives: true}}, dispatcher.EgressPolicy{})
+			d := &dispatcher.PushDispatcher{Store: store, Deliverer: hd}
+			url := "http://" + ln.Addr().String() + "/t"
+			for _, attempt := range []int{1, 3} {
+				a := d.VerifClassify(queue.Envelope{ID: "e", Route: "/r", Target: url, Attempt: attempt, LeaseID: "l", Payload: []byte("x")},
+					dispatcher.TargetConfig{URL: url, Timeout: 5 * time.Second, Retry: dispatcher.RetryConfig{Max: 2, Base: time.Second, Cap: time.Minute}})
+				emit(map[string]interface{}{"k": "classify", "res": "status", "n": code, "sub": "real-http-" + mode, "attempt": attempt, "max": 2, "got": actStr(a)})
+			}
+			ln.Close()
 		}
 	}
 
